@@ -70,6 +70,20 @@ def run(P, R):
                        'edge %s -> %s is neither on the forward chain, nor a return to OFF/SYNCHRONIZATION/ELECTION, '
                        'nor an exit to RESTARTING/SHUTTING_DOWN from ELECTION or later' % (a, b))
 
+    # the documented relation (docs/ only draw it; frozen from the transition table of the documented release): an
+    # edge added to the table is a way for the published state to move off the documented graph
+    DOCUMENTED = {'OFF': {'SYNCHRONIZATION'}, 'SYNCHRONIZATION': {'OFF', 'ELECTION'},
+                  'ELECTION': {'OFF', 'SYNCHRONIZATION', 'DISTRIBUTION', 'SHUTTING_DOWN'},
+                  'DISTRIBUTION': {'OFF', 'ELECTION', 'OPERATION', 'RESTARTING', 'SHUTTING_DOWN'},
+                  'OPERATION': {'OFF', 'SYNCHRONIZATION', 'ELECTION', 'CONCILIATION', 'RESTARTING', 'SHUTTING_DOWN'},
+                  'CONCILIATION': {'OFF', 'SYNCHRONIZATION', 'OPERATION', 'RESTARTING', 'SHUTTING_DOWN'},
+                  'RESTARTING': {'FINAL'}, 'SHUTTING_DOWN': {'FINAL'}, 'FINAL': set()}
+    for a in members:
+        extra = sorted(T.get(a, set()) - DOCUMENTED.get(a, set()))
+        R.check(r1, not extra, 'no undocumented edge out of %s' % a, 'undocumented|%s|%s' % (a, ','.join(extra)), floc,
+                '_Transitions[%s] admits %s, which the documented graph does not: the published state can move along '
+                'an undocumented edge' % (a, extra))
+
     # ---------------------------------------------------------------- R2
     r2 = R.rule('R2', 'ownership + dominance',
                 'the local FSM state (SupvisorsStateModes.state setter) is assigned outside statemodes.py only in '
